@@ -19,7 +19,7 @@ ID = "C12"
 LEVEL = "model_checking"
 MIN_OUTCOMES = 3
 MANIFEST = {
-    'text': 'All strings over the stated 15/17-symbol alphabet (quotes, backslash, $, backtick, %, newline, non-ASCII incl. a decomposed accent and U+2126 that change under Unicode normalisation, placeholders, OLD/NEW) up to length 3/4 in every slot (commit and tag message via TOML config, via setup.cfg and via CLI, file name, version-pattern literal) are run through the real `update` with a fake git/hg at the subprocess seam; the recorded argv vectors must equal those of the benign baseline run with only the one argument replaced by the expected text (hg: the --logfile content). Every string up to length 2 is additionally committed and tagged with a real git and read back from the objects.',
+    'text': 'All strings over the stated 15/17-symbol alphabet (quotes, backslash, $, backtick, %, newline, non-ASCII incl. a decomposed accent and U+2126 that change under Unicode normalisation, placeholders, OLD/NEW) up to length 3/4 in every slot (commit and tag message via TOML config, via setup.cfg and via CLI, file name, version-pattern literal) are run through the real `update` with a fake git/hg at the subprocess seam; the recorded argv vectors must equal those of the benign baseline run with only the one argument replaced by the expected text (hg: the --logfile content). Twelve whole messages in the shapes people use (`[ci/skip] ...`, `[skip ci]`, `chore(release): ...`, branch-listing look-alikes, multi-line bodies) run in repositories with an upstream, with only a remote URL and without any remote - the fake answers `git branch -vv` with the subject of the commit just made, as git does. Every string up to length 2 is additionally committed and tagged with a real git and read back from the objects.',
     'note': 'templates with braces other than the documented placeholders are outside the statement; how real git/hg interpret a leading dash is not covered (argv-level property)',
     'technique': 'exhaustive enumeration of a bounded input alphabet on the real code, differential trace oracle at the subprocess seam + real git',
 }
@@ -34,6 +34,11 @@ SIGMA = ["a", " ", "'", '"', "\\", "$", "`", "-", ";", "\n", "é", "{new_version
 CLI_EXTRA = ["OLD", "NEW"]
 PATH_SIGMA = ["a", " ", "'", '"', "$", "`", "-", ";", "é", "\\", "e\u0301", "\u2126"]
 PATTERN_CHARS = ["'", "$", "`", ";", "é", "*", "?", "(", "&", "#", "~", "!"]
+MESSAGE_IDIOMS = [
+    "[ci/skip] bump {old_version} -> {new_version}", "[skip ci] release {new_version}", "[bot/bumpver] {new_version}", "chore(release): {new_version} [origin/main]",
+    "[origin/main: ahead 1] {new_version}", "* main 89abcde [fork/main] {new_version}", "release/{new_version}", "Merge branch 'release/{new_version}' into main",
+    "fix: bump (closes #12)", "{new_version}", "v{new_version} / {new_version_pep440}", "bump\n\n[ci/skip]\nSigned-off-by: A <a@example.invalid>",
+]
 BENIGN = "Zq9"
 OLD, NEW = "1.2.3", "1.2.4"
 KW = dict(new_version=NEW, old_version=OLD, NEW_VERSION=NEW, OLD_VERSION=OLD, new_version_pep440=NEW, old_version_pep440=OLD)
@@ -122,7 +127,7 @@ def build(slot, value, kind):
     return files, args, path
 
 
-def run(slot, value, kind, real_git=False):
+def run(slot, value, kind, real_git=False, remote="upstream"):
     files, args, path = build(slot, value, kind)
     if files is None:
         return None
@@ -134,7 +139,7 @@ def run(slot, value, kind, real_git=False):
     if real_git:
         return None
     os.mkdir("." + kind)
-    fake = fakevcs.install(fakevcs.FakeVCS(kind, tags_all=["1.2.1"], status=[], remote="upstream"))
+    fake = fakevcs.install(fakevcs.FakeVCS(kind, tags_all=["1.2.1"], status=[], remote=remote))
     try:
         o = world.cli(*args)
     finally:
@@ -207,12 +212,12 @@ def value_text(slot, value):
     return expected_text(slot, value)
 
 
-def check_value(st, slot, syms, kind, baseline, failing_single=None):
+def check_value(st, slot, syms, kind, baseline, failing_single=None, remote="upstream"):
     value = "".join(syms)
     if slot == "path" and (value.strip() != value or value in (".", "..") or value.endswith("\\")):
         st.counters["paths_skipped_not_portable"] += 1
         return None
-    r = run(slot, value, kind)
+    r = run(slot, value, kind, remote=remote)
     if r is None:
         st.counters["inputs_skipped_cannot_be_written"] += 1
         return None
@@ -225,8 +230,10 @@ def check_value(st, slot, syms, kind, baseline, failing_single=None):
     else:
         want = substitute(baseline, benign_texts(slot), value_text(slot, value))
     case = {"slot": slot, "symbols": list(syms), "vcs": kind}
-    st.observe((slot, syms, kind, o.exit, o.crashed, got))
-    st.state(slot, kind, value)
+    if remote != "upstream":
+        case["remote"] = remote
+    st.observe((slot, syms, kind, remote, o.exit, o.crashed, got))
+    st.state(slot, kind, value, remote)
     if any(len(s) == 1 and not s.isalpha() for s in syms):
         st.nontriv(slot, value)
     problem = None
@@ -243,7 +250,8 @@ def check_value(st, slot, syms, kind, baseline, failing_single=None):
         st.outcomes[f"verbatim:{slot}"] += 1
         return None
     st.outcomes["violation"] += 1
-    st.violation(attribute(slot, syms, failing_single), case, dict(problem[1], kind=problem[0], value=value))
+    sig = attribute(slot, syms, failing_single) if len(syms) != 1 or len(syms[0]) <= 14 else f"C12:{slot}:message-idiom:{syms[0][:12].strip()}"
+    st.violation(sig, case, dict(problem[1], kind=problem[0], value=value))
     return problem[0]
 
 
@@ -279,6 +287,8 @@ def explore(tier, seed):
     chunks.append(("paths", "path", None, 2, "hg"))
     chunks.append(("pattern", "pattern-literal", None, 1, "git"))
     chunks.append(("pattern", "pattern-literal", None, 1, "hg"))
+    for slot in ("commit-config", "commit-cli", "tag-config", "tag-cli"):
+        chunks.append(("idioms", slot, None, 1, "git"))
     for part in range(8):
         chunks.append(("realgit", None, part, 2, "git"))
     return pool.run_chunks(run_chunk, chunks)
@@ -294,6 +304,18 @@ def run_chunk(chunk):
     os.chdir(d)
     if mode == "realgit":
         real_git(st, first)
+        os.chdir("/")
+        return st
+    if mode == "idioms":
+        # whole messages in the shapes people use, in repositories with an upstream, with only a remote URL, and without any remote:
+        # what `git branch -vv` / `git log` print after the commit (its subject) must not change any later command of the same run
+        for remote in ("upstream", "url", None):
+            o, fake, _p = run(slot, BENIGN, kind, remote=remote)
+            baseline = normalised_effects(fake)
+            if o.exit != 0:
+                raise pool.HarnessError(f"baseline run for idioms {slot}/{remote} failed: exit={o.exit} {baseline}")
+            for msg in MESSAGE_IDIOMS:
+                check_value(st, slot, [msg], kind, baseline, remote=remote)
         os.chdir("/")
         return st
     alpha = {"strings": SIGMA + (CLI_EXTRA if slot.endswith("cli") else []), "paths": PATH_SIGMA, "pattern": PATTERN_CHARS}[mode]
